@@ -19,6 +19,8 @@ claimed = {
               technique="deterministic simulation: seeded scheduler over the wrapper with an interleavable Once, exactly-once oracle, race detector in-sim"),
   "C18": dict(tier="S", text="Seeded search over interleavings of Load/Store/Swap/CompareAndSwap on AtomicValue[T] checked as an atomic register with porcupine, and of Get/use/Put on Pool[T] under a sync.Pool stub whose misses, dropped Puts and arbitrary choice are injected faults, with an ownership ledger and owner-field witness; a share of runs under the race detector (which found and now guards the Pool.Get race).", ref="3 (C18)",
               technique="deterministic simulation: seeded scheduler, sync.Pool fault stub, register linearizability (porcupine), ownership oracle, race detector in-sim"),
+  "C19": dict(tier="S", text="Seeded search over the timing of peer, timer, context cancellation and close around one SendTimeout/SendContext/RecvTimeout/RecvContext call (virtual clock, stalls that let a deadline pass while tasks are runnable), and over capacity, fill level, open/closed state, limit and concurrent senders for RecvQueued/RecvQueuedFull; conservation of unique tokens (acknowledged-sent = received + buffered), legitimacy of every false result, FIFO and never-blocks for the queued receivers.", ref="3 (C19)",
+              technique="deterministic simulation: seeded scheduler with virtual clock, timer/cancel/close fault injection, token-conservation oracle, race detector in-sim"),
 }
 
 not_applicable = {
